@@ -168,7 +168,12 @@ def run(chk: Check):
                    "the prefilter admits exactly the access modes of the grammar", expected=str(sorted(modes)), found=str(sorted(pref[1])))
     # a failed match is skipped with a warning only for non-matching lines; matched extents are all appended
     app = [n for n in _own_nodes(pctx.func) if isinstance(n, ast.Call) and isinstance(n.func, ast.Attribute) and n.func.attr == "append"]
-    chk.decide(any(R.expr(pctx, a.args[0])[0] == "call" and "ExtentDescriptor" in R.expr(pctx, a.args[0])[1] for a in app if a.args),
+    # (the appended value may be conditional - a helper that returns None for a malformed line: the alternative that is
+    # appended when the pattern matched is what counts)
+    def appended_descriptor(a):
+        t = R.expr(pctx, a.args[0], pctx.cfg.node_for(a))
+        return any(alt[0] == "call" and "ExtentDescriptor" in alt[1] for alt in S.alternatives(t))
+    chk.decide(any(appended_descriptor(a) for a in app if a.args),
                "K-PATH", "matched-extents-appended", pctx.func, "every matched extent line becomes an ExtentDescriptor in the extent list")
     # ExtentDescriptor: unquote once, int conversion
     ectx = chk.func(VREL, "ExtentDescriptor.__post_init__")
@@ -289,6 +294,49 @@ def bookkeeping(chk: Check, init):
                 chk.decide(ok, "K-FORMULA", "zero-extent-size", n, "a zero extent occupies extent.sectors * 512 bytes", found=S.show(sz)[:160])
 
 
+def _storage_walk_by_evaluation(chk: Check, ctx, loop, streams, lookup):
+    """StorageStream._read decided on model storage lists: the sorted (storage, stream) list and the look-up list are concrete
+    tuples, the walk is evaluated round by round and what it assembles - output range -> (stream, offset in that stream) - is
+    compared with: sector s belongs to the storage with the greatest start <= s and is read at (s - start) * 512 of its stream."""
+    from ..rulelib import simulate_assembly
+    from .C04 import canonical_segments
+    import bisect
+    OFF, LEN = ("p", ctx.qual, 1), ("p", ctx.qual, 2)
+    bad = []
+    n = 0
+    for bounds in ([(0, 8), (8, 24), (24, 32)], [(0, 64)], [(0, 3), (3, 4), (4, 40), (40, 41)]):
+        pairs = tuple((S.Rec(f"storage{i}", start=a, end=b), S.Rec(f"stream{i}")) for i, (a, b) in enumerate(bounds))
+        starts = tuple(a for a, _ in bounds)
+        total = bounds[-1][1]
+        reqs = [(0, total * 512), (0, 512), (512 * 3, 512 * 10), (512 * (bounds[0][1]), 512), (512 * (bounds[0][1] - 1), 1024), (512 * 2 + 100, 1000),
+                (512 * (total - 1), 512), (512 * 5, 8192)]
+        for off, ln in reqs:
+            if off // 512 + -(-ln // 512) > total:
+                continue
+            res = simulate_assembly(chk, ctx, loop, base={streams: pairs, lookup: starts, OFF: off, LEN: ln})
+            if res is None:
+                return None
+            segs, tot = res
+            want = []
+            sector, count, out = off // 512, -(-ln // 512), 0
+            idx = bisect.bisect_right(starts, sector) - 1
+            while count > 0 and idx < len(bounds):
+                a, b = bounds[idx]
+                k = min(b - sector, count)
+                want.append((out, k * 512, f"file:{S._key(pairs[idx][1])}", (sector - a) * 512))
+                out += k * 512
+                sector += k
+                count -= k
+                idx += 1
+            n += 1
+            if canonical_segments(segs, tot) != canonical_segments(want, None):
+                bad.append(f"storages {bounds}, _read({off}, {ln}): assembles {canonical_segments(segs, tot) or segs}, specified {canonical_segments(want, None)}")
+    chk.decide(not bad, "K-KIND", "storage:walk-by-evaluation", loop,
+               f"{n} model requests over one, three and four storages read every sector from the stream of the storage it belongs to, at "
+               "(sector - start) * 512" if not bad else "; ".join(bad[:2]))
+    return not bad
+
+
 def vmdk_walk(chk: Check):
     R = chk.R
     vk = chk.prog.cls(VREL, "VMDK").key
@@ -369,13 +417,15 @@ def storage(chk: Check):
     if not wl:
         raise AnalysisError("ANCHOR-VANISHED StorageStream._read has no while loop")
     loop = wl[0]
+    sim = _storage_walk_by_evaluation(chk, ctx, loop, streams, R.self_attr(sk, "_lookup"))
     car = loop_carried(chk, ctx, loop)
     OFF, LEN = ("p", ctx.qual, 1), ("p", ctx.qual, 2)
     pn, pi = carried_with_entry(chk, car, S.op("floordiv", OFF, S.C(512)))
     rn, ri = carried_with_entry(chk, car, S.op("floordiv", S.op("sub", S.op("add", LEN, S.C(512)), S.C(1)), S.C(512)))
     idxs = [(n, i) for n, i in car.items() if n not in (pn, rn)]
     if pi is None or ri is None or len(idxs) != 1:
-        chk.undecided("K-SPLIT", "storage:walk-variables", loop, f"expected sector (offset//512), count (ceil(length/512)) and stream index, found {list(car)}")
+        if sim is None:
+            chk.undecided("K-SPLIT", "storage:walk-variables", loop, f"expected sector (offset//512), count (ceil(length/512)) and stream index, found {list(car)}")
         return
     POS, REM = pi["phi"], ri["phi"]
     iname, iinfo = idxs[0]
